@@ -46,6 +46,34 @@ KidsAt(tree, path) == IF Len(path) = 1 THEN KidsOf(tree, path[1]) ELSE KidsAt(Ki
 RECURSIVE ExecAll(_, _, _)
 ExecAll(RB, tree, cmds) == IF cmds = <<>> THEN tree ELSE ExecAll(RB, Exec(RB, tree, RB.rules, <<>>, Head(cmds)), Tail(cmds))
 
+(* ---- flattening vendors (Junos style): one command is one line `set <words>` / `<negation word> <words>`, the words being the rows of the
+   path written one after the other.  The device segments the words with its schema -- here the rulebook: at each level the first rule
+   matching the remaining words governs; a rule with children rules takes exactly its pattern's words as the block header (headers are
+   key-determined), any other rule takes all remaining words as a leaf row.                                                         *)
+RECURSIVE Unflatten(_, _, _)
+Unflatten(words, loc, glo) ==
+  IF words = <<>> THEN <<>>
+  ELSE LET vis == Visible(loc, glo)
+           k == RuleIdx(vis, words)
+       IN IF k = 0 THEN << words >>
+          ELSE LET n == Len(Core(vis[k].pat))
+                   hdr == SubSeq(words, 1, n)
+                   kl == KidRules(vis, hdr) IN
+               IF kl # <<>> /\ Len(words) > n /\ ~vis[k].glob
+               THEN << hdr >> \o Unflatten(SubSeq(words, n + 1, Len(words)), kl, InheritDown(loc, glo))
+               ELSE << words >>
+\* `set a b c` inserts / replaces; `delete a b c` is the negated form of the last row of the path
+FlatPath(RB, cmd) ==
+  LET op == cmd[1]
+      path == Unflatten(Tail(cmd), RB.rules, <<>>)
+  IN IF op = RB.prefix /\ path # <<>> THEN SubSeq(path, 1, Len(path) - 1) \o << <<RB.prefix>> \o path[Len(path)] >> ELSE path
+RECURSIVE ExecAllFlat(_, _, _)
+ExecAllFlat(RB, tree, cmds) ==
+  IF cmds = <<>> THEN tree
+  ELSE ExecAllFlat(RB, IF Head(cmds)[1][1] \in {"set", RB.prefix} THEN Exec(RB, tree, RB.rules, <<>>, FlatPath(RB, Head(cmds)[1])) ELSE tree, Tail(cmds))
+\* every command list of every vendor: flat ones carry the flag in the rulebook record
+Run(RB, tree, cmds) == IF "flat" \in DOMAIN RB /\ RB.flat THEN ExecAllFlat(RB, tree, cmds) ELSE ExecAll(RB, tree, cmds)
+
 (* Contract-aware convergence (C01 Reading): slot-wise equality of the device with the target, except that
    - a `permanent` slot absent from the target may remain (with its old row; its children must have converged to nothing),
    - an `ignore_changes` slot present in old and target with different rows keeps the old row.                              *)
